@@ -862,7 +862,119 @@ mod spawn {
 		s.as_bytes().iter().map(|x| format!("{x:02x}")).collect()
 	}
 
+	/// The command-line program's own way of making and running a command: a real argv through the CLI's
+	/// argument parser and `make_config`, a real Watchexec, the start-up event, a real child (the helper,
+	/// which also plays the shell so that nothing interprets the joined command string).
+	async fn run_cli(case: &Value, scratch: &Path) -> Value {
+		use std::ffi::OsString;
+		use watchexec::Watchexec;
+		use watchexec_cli::verif::{args_from, make_config, new_state};
+		use watchexec_events::{Event, Priority, Source, Tag};
+
+		let variant = case["case"].as_u64().unwrap_or(0) as usize;
+		let helper = std::env::current_exe().unwrap().parent().unwrap().join("helper_child");
+		let helper_s = helper.display().to_string();
+		let tmp = tempfile::tempdir_in(scratch).unwrap();
+		let out = tmp.path().join("report.json");
+		let workdir = tmp.path().canonicalize().unwrap();
+		let c = &case["cmd"];
+		let opt = |t: &str| match (t, variant % 3) {
+			("O1", 0) => "-x",
+			("O1", 1) => "--norc",
+			("O1", _) => "-o",
+			(_, 0) => "-e",
+			(_, 1) => "-u",
+			_ => "shwordsplit",
+		};
+		// what an element of the expected argv stands for: tokens separated by single spaces
+		let bind_elem = |e: &str| -> String {
+			e.split(' ')
+				.map(|t| match t {
+					"HELPER" => helper_s.clone(),
+					"-c" => "-c".to_string(),
+					"O1" | "O2" => opt(t).to_string(),
+					t => bind(t, variant),
+				})
+				.collect::<Vec<_>>()
+				.join(" ")
+		};
+		let expected: Vec<String> = case["argv"].as_array().unwrap().iter().map(|t| hex(&bind_elem(t.as_str().unwrap()))).collect();
+		let envval = bind("T2", variant + 1);
+		let ws = ["  ", " ", "\t", " \t "][variant % 4];
+		let mut argv: Vec<OsString> = vec![
+			"watchexec".into(), "--quiet".into(), "-w".into(), "/dev/null".into(), "--project-origin".into(), "/".into(),
+			format!("--wrap-process={}", match case["mode"].as_str().unwrap() { "grouped" => "group", "session" => "session", _ => "none" }).into(),
+			"-E".into(), format!("VERIF_OUT={}", out.display()).into(),
+			"-E".into(), format!("VERIF_X={envval}").into(),
+			"--workdir".into(), workdir.clone().into(),
+		];
+		match c["shell"].as_str().unwrap() {
+			"none" => argv.push("--shell=none".into()),
+			"n" => argv.push("-n".into()),
+			"env" => {}      // $SHELL (set to the helper when the runner started)
+			"S" => argv.push(format!("--shell={helper_s}").into()),
+			"S1" => argv.push(format!("--shell={helper_s}{ws}{}", opt("O1")).into()),
+			_ => argv.push(format!("--shell={ws}{helper_s}{ws}{}{ws}{} ", opt("O1"), opt("O2")).into()),
+		}
+		argv.push("--".into());
+		argv.push(helper_s.clone().into());
+		for t in c["args"].as_array().unwrap() {
+			argv.push(bind(t.as_str().unwrap(), variant).into());
+		}
+		let shown: Vec<String> = argv.iter().map(|a| a.to_string_lossy().to_string()).collect();
+		let args = match args_from(argv).await {
+			Ok(a) => a,
+			Err(e) => return json!({"error": format!("args: {e}"), "cli_argv": shown}),
+		};
+		let state = match new_state(&args).await {
+			Ok(s) => s,
+			Err(e) => return json!({"error": format!("state: {e:?}"), "cli_argv": shown}),
+		};
+		let config = match make_config(&args, &state) {
+			Ok(c) => c,
+			Err(e) => return json!({"error": format!("config: {e:?}"), "cli_argv": shown}),
+		};
+		let wx = match Watchexec::with_config(config) {
+			Ok(w) => Arc::new(w),
+			Err(e) => return json!({"error": format!("watchexec: {e:?}"), "cli_argv": shown}),
+		};
+		let _ = wx.send_event(Event::default(), Priority::Urgent).await;
+		let main = wx.main();
+		for _ in 0..1000 {
+			if out.exists() && std::fs::metadata(&out).map(|m| m.len() > 0).unwrap_or(false) {
+				break;
+			}
+			tokio::time::sleep(std::time::Duration::from_millis(5)).await;
+		}
+		tokio::time::sleep(std::time::Duration::from_millis(10)).await;
+		let _ = wx
+			.send_event(
+				Event { tags: vec![Tag::Source(Source::Os), Tag::Signal(watchexec_signals::Signal::Interrupt)], metadata: Default::default() },
+				Priority::Urgent,
+			)
+			.await;
+		let _ = tokio::time::timeout(std::time::Duration::from_secs(15), main).await;
+		let report: Value = match std::fs::read(&out) {
+			Ok(b) => serde_json::from_slice(&b).unwrap_or(Value::Null),
+			Err(e) => return json!({"error": format!("child wrote no report: {e}"), "cli_argv": shown}),
+		};
+		let me = unsafe { (libc::getpid(), libc::getpgid(0), libc::getsid(0)) };
+		let pid = report["pid"].as_i64().unwrap_or(0);
+		json!({
+			"argv": report["argv"], "expected_argv": expected, "cli_argv": shown,
+			"own_group": report["pgid"].as_i64() == Some(pid),
+			"parent_group": report["pgid"].as_i64() == Some(i64::from(me.1)),
+			"own_session": report["sid"].as_i64() == Some(pid),
+			"parent_session": report["sid"].as_i64() == Some(i64::from(me.2)),
+			"cwd_ok": report["cwd"].as_str() == Some(&workdir.display().to_string()),
+			"env_ok": report["env"].as_str() == Some(&hex(&envval)),
+		})
+	}
+
 	pub async fn run(case: &Value, scratch: &Path) -> Value {
+		if case["cmd"]["kind"] == "cli" {
+			return run_cli(case, scratch).await;
+		}
 		let variant = case["case"].as_u64().unwrap_or(0) as usize;
 		let helper = std::env::current_exe().unwrap().parent().unwrap().join("helper_child");
 		let tmp = tempfile::tempdir_in(scratch).unwrap();
@@ -984,6 +1096,10 @@ fn main() {
 			_ => {}
 		}
 		i += 2;
+	}
+	if kind == "spawn" {
+		// the command-line cases without --shell take the shell from the environment
+		std::env::set_var("SHELL", std::env::current_exe().unwrap().parent().unwrap().join("helper_child"));
 	}
 	let scratch = std::path::Path::new(out_path)
 		.parent()
